@@ -983,6 +983,7 @@ let run_case (t : string list) : string =
               | [ "D"; a; b; x ] -> NetModel.Dial (n_of_string a, n_of_string b, Some (n_of_string x))
               | [ "X"; a; b ] -> NetModel.Disconnect (n_of_string a, n_of_string b)
               | [ "F"; a; b ] -> NetModel.FailedArrival (n_of_string a, n_of_string b)
+              | [ "W"; a; b ] -> NetModel.Call (n_of_string a, n_of_string b)
               | [ "R"; a ] -> NetModel.Restart (n_of_string a)
               | [ "K"; a; p; aff ] ->
                   NetModel.SetKnown
